@@ -21,7 +21,7 @@ checksum errors that some decompressors report only once) must survive.`,
 		Run: runRE4,
 	})
 	register(&Rule{
-		ID: "RE-5", Props: []string{"C17"}, Min: 4,
+		ID: "RE-5", Props: []string{"C17"}, Min: 1,
 		Doc: `ErrNoContent (which every reader treats as an empty input, exit status 0) is derived only from the error of a read probe on the buffered stream (ReadRune, ReadByte, Peek, Read of a
 *bufio.Reader): each argument of noContent() is an error variable whose definitions are all such calls — never the error of a decompressor constructor, which reports a stream cut
 inside its header with a plain io.EOF.`,
